@@ -49,7 +49,9 @@ def observe(ctx, ob, n, oracle_only=False, seed_shift=0, extra_args=None):
         return None, "observer %s does not build against the working tree:\n%s" % (ob["cmd"], out[-2500:])
     args = ["-n", n]
     corpus = os.path.join(core.VERIF, "corpus", ctx.prop)
-    if os.path.isdir(corpus) and not oracle_only:
+    if isinstance(ob.get("corpus"), str):
+        corpus = os.path.join(core.VERIF, "corpus", ob["corpus"])
+    if os.path.isdir(corpus) and not oracle_only and ob.get("corpus", True):
         args += ["-corpus", corpus]
     if oracle_only:
         args += ["-oracle-only"]
